@@ -44,7 +44,7 @@ def plan(tier, seed):
 
 def _simple_regime(rng, cfg):
     thumb = rng.getrandbits(1)
-    cpsr = G.random_cpsr(rng, cfg, thumb=thumb, mode=rng.choice(['usr', 'svc', 'sys', 'irq', 'und', 'abt']))
+    cpsr = G.random_cpsr(rng, cfg, thumb=thumb, mode=rng.choice(['usr', 'svc', 'sys', 'irq', 'und', 'abt']), e=None)
     sys = {'sctlr': G.sctlr_value(m=int(cfg['memory_system_architecture'] == 'PMSA' and rng.random() < 0.5), a=int(rng.random() < 0.2),
                                  u=rng.getrandbits(1), te=rng.getrandbits(1), v=int(rng.random() < 0.2), br=1, tre=1)}
     if cfg['memory_system_architecture'] == 'PMSA':
